@@ -33,9 +33,13 @@ ASSUMPTIONS = ['interleaving granularity is one source line of the traced module
 
 TRACED = ('mido/ports.py', 'mido/parser.py', 'mido/tokenizer.py', 'mido/backends/_parser_queue.py', 'lib/doubles.py')
 LAST = {}
+PRODUCED = []
 
 
 def make_msg(sender, seq, sysex):
+    if sysex == 'rt':
+        # a real-time message: its only attribute is time, which object-keeping ports (echo, multi) preserve
+        return mido.Message('clock', time=sender * 100 + seq + 1)
     if sysex:
         return mido.Message('sysex', data=[sender, seq, 0x11, 0x22, 0x33])
     return mido.Message('control_change', channel=sender, control=seq, value=seq + 1)
@@ -45,6 +49,8 @@ def ident(m):
     """(sender, seq) encoded in a received message, or None if it is not an intact sent message."""
     if type(m) is not mido.Message:
         return None
+    if m.type == 'clock' and isinstance(m.time, int) and 1 <= m.time < 2000:
+        return ((m.time - 1) // 100, (m.time - 1) % 100)
     if m.type == 'control_change' and m.value == m.control + 1 and m.time == 0:
         return (m.channel, m.control)
     if m.type == 'sysex' and len(m.data) == 5 and tuple(m.data[2:]) == (0x11, 0x22, 0x33) and m.time == 0:
@@ -54,7 +60,18 @@ def ident(m):
 
 def build_world(prog, sched):
     kind = prog['port']
-    saved = (ports_mod.threading, ports_mod.sleep, pq_mod.RLock, ports_mod.random)
+    saved = (ports_mod.threading, ports_mod.sleep, pq_mod.RLock, ports_mod.random, pq_mod.Parser)
+    PRODUCED.clear()
+
+    class LoggingParser(mido.Parser):
+        """The ParserQueue's parser, observed through the public Parser API: logs the order in which messages were
+        produced from the byte stream, which is the order the queue must hand them out in."""
+
+        def feed(self, data):
+            before = len(self.messages)
+            mido.Parser.feed(self, data)
+            PRODUCED.extend(list(self.messages)[before:])
+    pq_mod.Parser = LoggingParser
     shim = sched.shim()
     ports_mod.threading = shim
     ports_mod.sleep = sched.pause
@@ -82,7 +99,8 @@ def build_world(prog, sched):
         port = ports_mod.IOPort(WirePort('in', wire=wire), WirePort('out', wire=wire))
         send = port.send
     elif kind in ('multi', 'multi-yield'):
-        subs = [ports_mod.EchoPort(), WirePort('w2')]
+        # (a wire sub-port serialises to bytes and drops `time`, the only attribute of the real-time kind)
+        subs = [ports_mod.EchoPort(), ports_mod.EchoPort() if prog.get('sysex') == 'rt' else WirePort('w2')]
         port = ports_mod.MultiPort(subs, yield_ports=(kind == 'multi-yield'))
         send = port.send
         copies = 2
@@ -97,7 +115,7 @@ def build_world(prog, sched):
 
 
 def restore_world(saved):
-    ports_mod.threading, ports_mod.sleep, pq_mod.RLock, ports_mod.random = saved
+    ports_mod.threading, ports_mod.sleep, pq_mod.RLock, ports_mod.random, pq_mod.Parser = saved
 
 
 def run_program(prog, schedule, first=0, max_steps=None):
@@ -122,6 +140,8 @@ def run_program(prog, schedule, first=0, max_steps=None):
                     if prog.get('mutate'):
                         if m.type == 'sysex':
                             m.data = (99, 99)
+                        elif m.type == 'clock':
+                            m.time = 7777
                         else:
                             m.value = 0
                             m.channel = 15
@@ -221,6 +241,11 @@ def evaluate(prog, sched, sent, received, copies):
                                                  f'(not a merge of {copies} FIFO streams)', **facts))
                         return out
                     cnt[j] = c + 1
+    if kind == 'pqueue' and len(received) == 1 and not out:
+        got = [ident(m) for m in received[0]]
+        prod = [ident(m) for m in PRODUCED]
+        if got != prod[:len(got)]:
+            out.append(fail('queue-fifo', f'the parser produced {prod} but the queue handed out {got}', **facts))
     if seen != want:
         missing = {k: v - seen.get(k, 0) for k, v in want.items() if seen.get(k, 0) != v}
         out.append(fail('exactly-once', f'received counts differ from sent: (sender, seq) -> missing(+)/extra(-) {missing}',
@@ -275,6 +300,10 @@ def small_programs():
         if port in ('multi', 'multi-yield'):
             progs.append({'port': port, 'senders': [3], 'receivers': [{'mode': 'poll', 'quota': 3},
                                                                      {'mode': 'poll', 'quota': 3}]})
+        if port in ('echo', 'multi', 'multi-yield'):
+            # object-keeping ports with a real-time message that the sender changes right after send()
+            progs.append({'port': port, 'senders': [2], 'receivers': [{'mode': 'poll', 'quota': two}], 'sysex': 'rt',
+                          'mutate': True})
         # two receivers going for a single message / for the last message
         progs.append({'port': port, 'senders': [1], 'receivers': [{'mode': 'poll', 'quota': 1},
                                                                  {'mode': 'poll', 'quota': 1}]})
@@ -326,7 +355,8 @@ def drawn_cases(draw):
         q = draw(st.integers(0, total))
         recs = [{'mode': draw(st.sampled_from(modes)), 'quota': q},
                 {'mode': draw(st.sampled_from(modes)), 'quota': total - q}]
-    prog = {'port': port, 'senders': senders, 'receivers': recs, 'sysex': draw(st.booleans()),
+    prog = {'port': port, 'senders': senders, 'receivers': recs,
+            'sysex': draw(st.sampled_from([False, True, 'rt'] if port in ('echo',) else [False, True])),
             'mutate': draw(st.booleans()), 'shuffle': draw(st.integers(0, 1))}
     sched = draw(st.lists(st.sampled_from([0, 0, 0, 0, 0, 0, 0, 0, 0, 1, 2, 3]), max_size=600))
     return {'prog': prog, 'sched': sched, 'first': draw(st.integers(0, 4))}
